@@ -64,22 +64,23 @@ type Contract struct {
 	NoPanic  bool
 	Panics   []PanicSpec
 	// PanicsOnly: function never returns normally under this condition
-	Loops    map[int]*LoopSpec
-	Hints    map[string][]Hint // anchor -> hints
-	Lets     []LetDecl
-	Ghosts   []GhostDecl
-	Decls    []string // "let:<i>" / "ghost:<i>" in source order
-	Trusted  bool // contract assumed, body not verified (externals / out-of-subset): listed in evidence
-	Inline   bool // force inlining at call sites even though a contract exists
-	NoInline bool
-	Pure     bool
-	Witness  []string
-	Assumes  []string // free-text assumptions echoed to evidence
-	Dispatch map[string][]string
+	Loops         map[int]*LoopSpec
+	Hints         map[string][]Hint // anchor -> hints
+	Lets          []LetDecl
+	Ghosts        []GhostDecl
+	Decls         []string // "let:<i>" / "ghost:<i>" in source order
+	Trusted       bool     // contract assumed, body not verified (externals / out-of-subset): listed in evidence
+	Inline        bool     // force inlining at call sites even though a contract exists
+	NoInline      bool
+	Pure          bool
+	Witness       []string
+	Assumes       []string // free-text assumptions echoed to evidence
+	Dispatch      map[string][]string
+	ReadsInit     []string // package-level variables whose initial value (set by the package initialiser, never written afterwards) is used
 	PureCallbacks []string // parameter names whose calls are modelled as pure, total, uninterpreted functions
-	File     string
-	Line     int
-	Matched  bool
+	File          string
+	Line          int
+	Matched       bool
 }
 
 type GhostField struct {
@@ -101,19 +102,32 @@ type PredDecl struct {
 
 type LemmaUse struct{}
 
+type LemmaDecl struct {
+	PkgPath  string
+	Name     string
+	Params   []QVar
+	Props    []string
+	Requires []Clause
+	Ensures  []Clause
+	File     string
+	Line     int
+}
+
 type ContractSet struct {
-	Funcs map[string]*Contract // pkgpath + "::" + key
-	Preds map[string]*PredDecl // name (package-qualified lookups try pkg first)
+	Lemmas      []*LemmaDecl
+	Funcs       map[string]*Contract // pkgpath + "::" + key
+	Preds       map[string]*PredDecl // name (package-qualified lookups try pkg first)
 	GhostFields []*GhostField
-	Files []string
+	Files       []string
 }
 
 var reClauseLoop = regexp.MustCompile(`^loop#(\d+)\s+(invariant|decreases|use|assert)\s+(.*)$`)
 var reAt = regexp.MustCompile(`^at\s+(\S+)\s+(use|assert|set|setdef)\s+(.*)$`)
-var rePred = regexp.MustCompile(`^(?:pred|fun)\s+([A-Za-z_][A-Za-z0-9_]*)\s*\((.*?)\)\s*:=\s*(.*)$`)
+var reLemma = regexp.MustCompile(`^lemma\s+([A-Za-z_][A-Za-z0-9_]*)\s*\((.*)\)\s*$`)
+var rePred = regexp.MustCompile(`^(?:pred|fun)\s+([A-Za-z_][A-Za-z0-9_]*)\s*\((.*?)\)\s*(?:[A-Za-z_.\[\]*]+\s*)?:=\s*(.*)$`)
 
 func clauseKeyword(s string) bool {
-	for _, k := range []string{"property ", "requires ", "ensures ", "modifies ", "no_panic", "panics ", "decreases ", "loop#", "at ", "let ", "ghost ", "trusted", "inline", "noinline", "pure", "witness ", "assumes ", "dispatch ", "callback "} {
+	for _, k := range []string{"property ", "requires ", "ensures ", "modifies ", "no_panic", "panics ", "decreases ", "loop#", "at ", "let ", "ghost ", "trusted", "inline", "noinline", "pure", "witness ", "assumes ", "dispatch ", "callback ", "reads_init "} {
 		if strings.HasPrefix(s, k) {
 			return true
 		}
@@ -174,7 +188,7 @@ func (cs *ContractSet) parseFile(pkgPath, file string) error {
 		if t == "" {
 			continue
 		}
-		isStart := strings.HasPrefix(t, "ghostfield ") || strings.HasPrefix(t, "func ") || strings.HasPrefix(t, "pred ") || strings.HasPrefix(t, "fun ") || strings.HasPrefix(t, "end")
+		isStart := strings.HasPrefix(t, "lemma ") || strings.HasPrefix(t, "ghostfield ") || strings.HasPrefix(t, "func ") || strings.HasPrefix(t, "pred ") || strings.HasPrefix(t, "fun ") || strings.HasPrefix(t, "end")
 		if !isStart && !clauseKeyword(t) && len(joined) > 0 {
 			joined[len(joined)-1].text += " " + t
 			continue
@@ -182,6 +196,7 @@ func (cs *ContractSet) parseFile(pkgPath, file string) error {
 		joined = append(joined, rawLine{t, l.line})
 	}
 	var cur *Contract
+	var curLemma *LemmaDecl
 	for _, l := range joined {
 		t := l.text
 		fail := func(err error) error { return fmt.Errorf("%s:%d: %v", file, l.line, err) }
@@ -192,6 +207,48 @@ func (cs *ContractSet) parseFile(pkgPath, file string) error {
 			}
 			return Clause{E: e, Src: src, File: file, Line: l.line}, nil
 		}
+		if strings.HasPrefix(t, "lemma ") {
+			m := reLemma.FindStringSubmatch(t)
+			if m == nil {
+				return fail(fmt.Errorf("bad lemma declaration: %s", t))
+			}
+			var params []QVar
+			if strings.TrimSpace(m[2]) != "" {
+				for _, p := range strings.Split(m[2], ",") {
+					sp := strings.SplitN(strings.TrimSpace(p), " ", 2)
+					if len(sp) != 2 {
+						return fail(fmt.Errorf("lemma parameter needs a type: %q", p))
+					}
+					params = append(params, QVar{Name: sp[0], Type: strings.TrimSpace(sp[1])})
+				}
+			}
+			curLemma = &LemmaDecl{PkgPath: pkgPath, Name: m[1], Params: params, File: file, Line: l.line}
+			cs.Lemmas = append(cs.Lemmas, curLemma)
+			cur = nil
+			continue
+		}
+		if curLemma != nil && cur == nil && !strings.HasPrefix(t, "func ") && !strings.HasPrefix(t, "pred ") && !strings.HasPrefix(t, "fun ") && !strings.HasPrefix(t, "ghostfield ") {
+			switch {
+			case strings.HasPrefix(t, "property "):
+				curLemma.Props = append(curLemma.Props, strings.Fields(t[9:])...)
+			case strings.HasPrefix(t, "requires "):
+				c, err := mk(t[9:])
+				if err != nil {
+					return err
+				}
+				curLemma.Requires = append(curLemma.Requires, c)
+			case strings.HasPrefix(t, "ensures "):
+				c, err := mk(t[8:])
+				if err != nil {
+					return err
+				}
+				curLemma.Ensures = append(curLemma.Ensures, c)
+			default:
+				return fail(fmt.Errorf("unknown lemma clause: %s", t))
+			}
+			continue
+		}
+		curLemma = nil
 		switch {
 		case strings.HasPrefix(t, "func "):
 			key := strings.TrimSpace(t[5:])
@@ -402,6 +459,8 @@ func (cs *ContractSet) parseFile(pkgPath, file string) error {
 			cur.Witness = append(cur.Witness, strings.TrimSpace(t[8:]))
 		case strings.HasPrefix(t, "assumes "):
 			cur.Assumes = append(cur.Assumes, strings.TrimSpace(t[8:]))
+		case strings.HasPrefix(t, "reads_init "):
+			cur.ReadsInit = append(cur.ReadsInit, strings.Fields(t[11:])...)
 		case strings.HasPrefix(t, "callback "):
 			fs := strings.Fields(t[9:])
 			if len(fs) != 2 || fs[1] != "pure" {
